@@ -639,7 +639,9 @@ def run(P, rep, tier):
                        'parser only the resume position after a designator (R05.8, sibling agreement of the cursor-walk functions), whole-aggregate copy initialisation, '
                        'the completion of arrays of unknown bound / flexible array members (R05.9: declared element type, length from the initializer, final type handed to '
                        'the object) and the override of an earlier initializer of the same sub-object by a later one (R05.10: union member selection, scalar expression, '
-                       'whole-struct copy expression) are decided; the token-stream dependent rest (brace elision, excess elements) is not, nor is the reset of '
+                       'whole-struct copy expression) and the member lookup of a `.name` designator (R05.12: exact name match, members passed over differ, anonymous aggregates '
+                       'probed) are decided; the constant-expression evaluator is checked per node kind for its label discipline and for evaluating exactly the selected arm of a '
+                       'conditional (R05.11); the token-stream dependent rest (brace elision, excess elements) is not, nor is the reset of '
                        'individual members when a whole aggregate sub-object is initialised a second time by a list.')
     rep.assumptions += ['calloc succeeds', 'loops over members/elements are analysed for 0..2 generic iterations; the facts checked are per-iteration facts',
                         'bit-field members have an integer type of size 1, 2, 4 or 8',
@@ -668,6 +670,8 @@ def run(P, rep, tier):
     r056(P, u, E, cat, rep)
     r059(P, u, E, cat, rep)
     r0510(P, u, E, rep)
+    r0511(P, u, E, cat, rep)
+    r0512(P, u, E, rep)
 
 
 # ------------------------------------------------------------------------------------------------
@@ -2225,3 +2229,395 @@ def r0510(P, u, E, rep):
                where=_w(u, 'struct_initializer1' if form == 'braced-list' else fn), facts={'path': ctx.trail[-8:]})
     if forms != {'struct-valued-expression', 'brace-elided-list', 'braced-list'}:
         rep.undecided('R05.10', '%s:%s:struct' % (U, fn), 'struct initializer forms recognised: %s' % sorted(forms))
+
+
+# ------------------------------------------------------------------------------------------------
+# R05.11 label discipline of the constant-expression evaluator over EVERY node kind: the label slot (the symbol of an address
+# constant) reaches at most one operand evaluation per path and the value of that operand is returned unscaled; a conditional
+# evaluates its condition label-free and then exactly the arm the condition selects
+# ------------------------------------------------------------------------------------------------
+def _truth(ctx, v):
+    """truth value the path established for the opaque value v (True / False / None)"""
+    k = vkey(v)
+    t = ctx.facts.get(k)
+    if t is not None:
+        return bool(t)
+    b = ctx.bounds.get(k)
+    if b and b[0] == b[1] == 0:
+        return False
+    if b and (b[0] > 0 or b[1] < 0):
+        return True
+    if 0 in ctx.neq.get(k, ()):
+        return True
+    for fk, tv in ctx.facts.items():
+        if isinstance(fk, tuple) and len(fk) == 4 and fk[0] == 'term' and str(fk[1]).split(':')[0] in ('==', '!='):
+            if (fk[2] == k and fk[3] == 0) or (fk[3] == k and fk[2] == 0):
+                ne = str(fk[1]).split(':')[0] == '!='
+                return bool(tv) if ne else not bool(tv)
+    return None
+
+
+def _coef_of(v, leaf):
+    """(coefficient of `leaf` in the linear value v, does `leaf` also occur inside a non-linear sub-term?)"""
+    if v is leaf:
+        return 1, False
+    L = Lin.of(v)
+    if not isinstance(L, Lin):
+        return 0, _contains(v, leaf)
+    coef, hidden = 0, False
+    for c, l in L.terms.values():
+        if l is leaf:
+            coef += c
+        elif _contains(l, leaf):
+            hidden = True
+    return coef, hidden
+
+
+EVAL_CHILDREN = ('lhs', 'rhs', 'cond', 'then', 'els')
+
+
+def _und_once(rep, rule, key, why, where=None):
+    """rep.undecided, once per key (the same undecidable construct is reached on many paths)"""
+    seen = getattr(rep, '_c05_undecided_once', None)
+    if seen is None:
+        seen = rep._c05_undecided_once = set()
+    if (rule, key) in seen:
+        return
+    seen.add((rule, key))
+    rep.undecided(rule, key, why, where=where)
+
+
+def r0511(P, u, E, cat, rep):
+    rep.rule('R05.11', 'constant-expression evaluator, every node kind: the label slot of an address constant is handed to at most one operand evaluation per path, '
+             'that operand\'s value is returned with coefficient 1, no arm outside the address arms writes the slot; a conditional evaluates its condition '
+             'label-free and then exactly the selected arm (eval2 and eval_double)', floor=24)
+    kinds = u.enum_types.get('NodeKind')
+    if not kinds or 'ND_COND' not in kinds:
+        raise AnalysisBroken('enum NodeKind / ND_COND vanished')
+    _need(u, 'eval2', 'eval_rval', 'eval_double', 'eval')
+
+    def h(name, ctype='long'):
+        def f(it, ctx, n, args):
+            r = Sym(ctx.fresh(name), ctype)
+            ctx.emit('rec', name, args, r, n.line)
+            return r
+        return f
+
+    def mk_for(kind, tys, with_label):
+        def mk(ctx):
+            node = Obj('Node', lazy=True, label='node')
+            node.fields['kind'] = E[kind]
+            node.fields['ty'] = type_cell(cat, 'node.ty', only=tys)
+            for ch in EVAL_CHILDREN:
+                node.fields[ch] = Obj('Node', lazy=True, label='node.' + ch)
+            ctx.node = node
+            ctx.slot = _Slot()
+            ctx.lref = _Ref(ctx.slot)
+            return [node, ctx.lref] if with_label else [node]
+        return mk
+
+    def child_name(node, v):
+        for ch in EVAL_CHILDREN:
+            if v is node.fields.get(ch):
+                return ch
+        return None
+    n_cond = {}
+    for fn in ('eval2', 'eval_rval'):
+        where = _w(u, fn)
+        for kind in kinds:
+            it = TInterp(P, u, {'cut': {'eval2': h('eval2'), 'eval_rval': h('eval_rval')}, 'opaque': ['add_type', 'eval_double'], 'track_stores': True})
+            res = it.explore(fn, mk_for(kind, ('ptr', 'int', 'uint', 'long', 'ulong'), True))
+            key = '%s:%s:%s' % (U, fn, kind)
+            for ctx, out in res:
+                if out[0] != 'ret':
+                    continue
+                node = ctx.node
+                recs = [e for e in ctx.events if e[0] == 'rec']
+                lab = [e for e in recs if len(e[2]) > 1 and e[2][1] is ctx.lref]
+                other = [e for e in recs if len(e[2]) > 1 and not is_null(e[2][1]) and e[2][1] is not ctx.lref]
+                ok, msg, construct = True, '', 'label-discipline'
+                if other:
+                    ok = False; construct = 'foreign-label-slot'; msg = '%s of %s evaluates an operand with a label slot that is not the caller\'s' % (fn, kind)
+                elif len(lab) > 1:
+                    ok = False; construct = 'label-slot-handed-to-several-operands'
+                    msg = ('%s of %s hands the label slot to %d operand evaluations on one path (%s): each address operand overwrites the symbol recorded by the previous one, so the '
+                           'relocation combines the symbol of one operand with the addend of another (or a symbol appears although an integer/null operand was selected)'
+                           % (fn, kind, len(lab), ', '.join('node->%s' % (child_name(node, settle(it, e[2][0])) or '?') for e in lab)))
+                elif kind not in ADDR_SPEC.get(fn, {}):
+                    if lab:
+                        c, hidden = _coef_of(out[1], lab[0][3])
+                        if c != 1 or hidden:
+                            ok = False; construct = 'address-operand-not-returned-unscaled'
+                            msg = ('%s of %s hands the label slot to node->%s but returns %s: symbol+addend is only representable when the value of the address operand enters the result '
+                                   'with coefficient 1' % (fn, kind, child_name(node, settle(it, lab[0][2][0])) or '?', show(out[1])))
+                    if ok and not is_null(ctx.slot.v):
+                        ok = False; construct = 'label-written'; msg = '%s of %s writes the label slot itself although %s is not an address' % (fn, kind, kind)
+                if kind == 'ND_COND':
+                    n_cond[fn] = n_cond.get(fn, 0) + 1
+                    r_ = _cond_path(it, ctx, out, fn, recs, node, lab, True)
+                    if r_[1] is None and ok:
+                        _und_once(rep, 'R05.11', key + '/selected-arm', r_[2], where=where)
+                        continue
+                    if ok or r_[1] == 'unselected-arm-evaluated':
+                        ok, construct, msg = r_
+                rep.ob('R05.11', key + '/' + construct, ok, msg, where=where, facts={'path': ctx.trail})
+    # eval_double: the conditional of floating constant expressions
+    fn = 'eval_double'
+    it = TInterp(P, u, {'cut': {'eval2': h('eval2'), 'eval_double': h('eval_double', 'double')}, 'opaque': ['add_type'], 'track_stores': True})
+    for ctx, out in it.explore(fn, mk_for('ND_COND', ('float', 'double', 'ldouble'), False)):
+        if out[0] != 'ret':
+            continue
+        recs = [e for e in ctx.events if e[0] == 'rec']
+        ok, construct, msg = _cond_path(it, ctx, out, fn, recs, ctx.node, [], False)
+        n_cond[fn] = n_cond.get(fn, 0) + 1
+        if construct is None:
+            _und_once(rep, 'R05.11', '%s:%s:ND_COND/selected-arm' % (U, fn), msg, where=_w(u, fn))
+            continue
+        rep.ob('R05.11', '%s:%s:ND_COND/%s' % (U, fn, construct), ok, msg, where=_w(u, fn), facts={'path': ctx.trail})
+    for fn in ('eval2', 'eval_double'):
+        if n_cond.get(fn, 0) < 2:
+            _und_once(rep, 'R05.11', '%s:%s:ND_COND' % (U, fn), 'conditional arm of %s not recognised (%d returning paths, expected one per truth value of the condition)' % (fn, n_cond.get(fn, 0)))
+
+
+def _cond_path(it, ctx, out, fn, recs, node, lab, labelled):
+    """one returning path of the ND_COND arm -> (ok, construct, msg); construct None = not interpretable"""
+    who = [(e, settle(it, e[2][0])) for e in recs]
+    conds = [e for e, n in who if n is node.fields['cond']]
+    arms = [(e, 'then' if n is node.fields['then'] else 'els') for e, n in who if n is node.fields['then'] or n is node.fields['els']]
+    rest = [e for e, n in who if n is not node.fields['cond'] and n is not node.fields['then'] and n is not node.fields['els']]
+    if rest:
+        return False, 'operands', '%s of ND_COND evaluates something that is neither node->cond, node->then nor node->els' % fn
+    if len(conds) != 1:
+        return False, 'condition-evaluations', '%s of ND_COND evaluates the condition %d times on one path (expected once)' % (fn, len(conds))
+    if labelled and conds[0] in lab:
+        return False, 'condition-gets-label-slot', '%s of ND_COND evaluates the condition with the label slot: an address inside the condition would become the symbol of the result' % fn
+    t = _truth(ctx, conds[0][3])
+    if t is None:
+        return False, None, 'the path does not decide the truth of the evaluated condition (%s)' % ' / '.join(ctx.trail[-3:])
+    want = 'then' if t else 'els'
+    sel = [e for e, a in arms if a == want]
+    uns = [e for e, a in arms if a != want]
+    if uns:
+        return False, 'unselected-arm-evaluated', (
+            '%s of ND_COND evaluates node->%s although the condition selects node->%s: %s' % (
+                fn, 'els' if want == 'then' else 'then', want,
+                'the label slot receives the symbol of the arm that was NOT selected, so `static T *p = 1 ? &a : &b;` points to b and `1 ? 0 : &a` is no longer a null pointer (the automatic '
+                'object with the same initializer gets the selected arm)' if any(e in lab for e in uns) else
+                'a constant expression whose unselected arm is not evaluable (`1 ? 0 : 1/0`, `1 ? 0 : &a` without label) is rejected or mis-evaluated (C11 6.6p3: unevaluated operands are exempt)'))
+    if len(sel) != 1:
+        return False, 'selected-arm-evaluations', '%s of ND_COND evaluates the selected arm node->%s %d times (expected once)' % (fn, want, len(sel))
+    if labelled and sel[0] not in lab:
+        return False, 'label-not-passed', '%s of ND_COND evaluates the selected arm node->%s without handing down the label slot: `c ? &a : &b` loses its symbol' % (fn, want)
+    c, hidden = _coef_of(out[1], sel[0][3])
+    if out[1] is not sel[0][3] and not (c == 1 and not hidden and lin_eq(out[1], sel[0][3])):
+        return False, 'value-not-selected-arm', '%s of ND_COND returns %s, not the value of the selected arm node->%s' % (fn, show(out[1]), want)
+    return True, 'selected-arm-only', ''
+
+
+# ------------------------------------------------------------------------------------------------
+# R05.12 `.name` designator lookup: a member is selected exactly when its name IS the designated identifier (same length, same
+# bytes); every member passed over differs; anonymous struct/union members are probed with the same identifier
+# ------------------------------------------------------------------------------------------------
+def _known_ne(ctx, a, b):
+    """the path established a != b by a comparison of the two values"""
+    ka, kb = vkey(a), vkey(b)
+    for fk, tv in ctx.facts.items():
+        if not (isinstance(fk, tuple) and len(fk) == 4 and fk[0] == 'term'):
+            continue
+        op = str(fk[1]).split(':')[0]
+        if {fk[2], fk[3]} != {ka, kb} or ka == kb:
+            continue
+        if (op == '==' and not tv) or (op == '!=' and tv):
+            return True
+        if op in ('<', '>') and tv:
+            return True
+        if op in ('<=', '>=') and not tv:
+            return True
+    return False
+
+
+def r0512(P, u, E, rep):
+    rep.rule('R05.12', 'member lookup of a `.name` designator (struct_designator, and get_struct_member for members of anonymous structs/unions): a named member is selected only '
+             'when its name has the length of the designated identifier and the same bytes over that length, every member passed over is known to differ, anonymous '
+             'aggregates are probed with the same identifier, and the token cursor resumes behind the identifier (at the designator again for an anonymous aggregate)', floor=8)
+    _need(u, 'struct_designator', 'get_struct_member')
+    for k in ('TY_STRUCT', 'TY_UNION'):
+        if k not in E:
+            raise AnalysisBroken('enumerator %s vanished' % k)
+    AGG = (E['TY_STRUCT'], E['TY_UNION'])
+
+    def m_cmp(name):
+        def f(it, ctx, n, a):
+            r = View(Cell([0, 1], ctx.fresh(name), names={0: 'equal', 1: 'different'}))
+            ctx.emit('cmp', name, a, r, n.line)
+            return r
+        return f
+
+    def m_skip(it_, ctx, n_, a):
+        t = settle(it_, a[0]) if a else None
+        r = it_.read_field(t, 'next') if isinstance(t, Obj) else Obj('Token', lazy=True, label=ctx.fresh('skip'))
+        ctx.emit('skip', a, r, n_.line)
+        return r
+
+    def m_probe(it, ctx, n, a):
+        m = Obj('Member', lazy=True, label=ctx.fresh('inner-member'))
+        r = View(Cell([0, m], ctx.fresh('get_struct_member'), names={0: 'NULL'}))
+        ctx.emit('probe', a, r, n.line)
+        return r
+    for fn in ('struct_designator', 'get_struct_member'):
+        desg = fn == 'struct_designator'
+        cfg = {'models': {'strncmp': m_cmp('strncmp'), 'memcmp': m_cmp('memcmp'), 'skip': m_skip}, 'loop_limit': 2, 'track_stores': True}
+        if desg:
+            cfg['models']['get_struct_member'] = m_probe
+        else:
+            cfg['cut'] = {'get_struct_member': m_probe}
+        it = TInterp(P, u, cfg)
+
+        def mk(ctx, desg=desg):
+            ctx.ty = Obj('Type', lazy=True, label='ty')
+            ctx.tok = Obj('Token', lazy=True, label='tok')
+            ctx.slot = _Slot()
+            return [_Ref(ctx.slot), ctx.tok, ctx.ty] if desg else [ctx.ty, ctx.tok]
+        res = it.explore(fn, mk)
+        where = _w(u, fn)
+        any_cmp = any(e[0] == 'cmp' for ctx, out in res for e in ctx.events)
+        if not any_cmp:
+            _und_once(rep, 'R05.12', '%s:%s:name-comparison' % (U, fn), 'no strncmp/memcmp of member name and identifier on any path: the name comparison is not recognised', where=where)
+            continue
+        seen = set()
+        for ctx, out in res:
+            if desg:
+                sk = [e for e in ctx.events if e[0] == 'skip']
+                if not sk:
+                    continue
+                if len(sk) != 1 or settle(it, sk[0][1][0]) is not ctx.tok or len(sk[0][1]) < 2 or sk[0][1][1] != '.':
+                    _und_once(rep, 'R05.12', '%s:%s:identifier' % (U, fn), 'the designated identifier is not found as skip(tok, ".")', where=where)
+                    continue
+                ident = settle(it, sk[0][2])
+            else:
+                ident = ctx.tok
+            if not isinstance(ident, Obj):
+                continue
+            sel = None
+            if out[0] == 'ret':
+                sel = settle(it, out[1])
+                if not (isinstance(sel, Obj) or is_null(sel)):
+                    _und_once(rep, 'R05.12', '%s:%s:result' % (U, fn), 'returned value %s is not a member' % show(sel), where=where)
+                    continue
+            elif out[1] not in ('error_tok', 'error_at') or not desg:
+                continue
+            elif len(out[2]) > 1 and out[2][1] != 'struct has no such member' and not [e for e in ctx.events if e[0] == 'loop_done']:
+                continue          # diagnostics before the member walk (not an identifier)
+            mems, complete = members_walk(it, ctx.ty)
+            unknown = [e for e in ctx.events if e[0] == 'call']
+            cmps = [e for e in ctx.events if e[0] == 'cmp']
+            probes = [e for e in ctx.events if e[0] == 'probe']
+
+            def name_eq(m):
+                """None = equal on this path, else (construct, message)"""
+                nm = field(m, 'name')
+                mine = [e for e in cmps if len(e[2]) >= 3 and {vkey(e[2][0]), vkey(e[2][1])} == {vkey(field(nm, 'loc')), vkey(field(ident, 'loc'))}
+                        and 'loc' in nm.fields and 'loc' in ident.fields]
+                zero = [e for e in mine if is_null(settle(it, e[3]))]
+                if not zero:
+                    return 'name-bytes-not-compared', 'without comparing the bytes of its name with the identifier'
+                ln, li = nm.fields.get('len'), ident.fields.get('len')
+                if ln is None or li is None or not eq_on_path(ctx, ln, li):
+                    return 'name-length-not-compared', ('although only the first %s bytes of its name were compared and its length was not: the FIRST member whose name merely starts with '
+                                                        'the identifier is taken (`.length = 5` initialises an earlier member `length_max`, `.tag` an earlier `tag2`), the designated '
+                                                        'member keeps the zero fill' % show(zero[0][2][2]))
+                n_ = zero[0][2][2]
+                if not (eq_on_path(ctx, n_, ln) or eq_on_path(ctx, n_, li)):
+                    return 'name-compared-over-other-length', 'although its name was compared over %s bytes, not over the length of the name' % show(n_)
+                return None
+
+            def name_ne(m):
+                nm = field(m, 'name')
+                ln, li = nm.fields.get('len'), ident.fields.get('len')
+                if ln is not None and li is not None and _known_ne(ctx, ln, li):
+                    return True
+                for e in cmps:
+                    if len(e[2]) >= 3 and 'loc' in nm.fields and 'loc' in ident.fields and {vkey(e[2][0]), vkey(e[2][1])} == {vkey(nm.fields['loc']), vkey(ident.fields['loc'])}:
+                        r = settle(it, e[3])
+                        n_ = e[2][2]
+                        # differing bytes within the length of either name: the names differ whatever their lengths
+                        if isinstance(r, int) and r != 0 and ((ln is not None and eq_on_path(ctx, n_, ln)) or (li is not None and eq_on_path(ctx, n_, li))):
+                            return True
+                return False
+
+            def probe_of(m):
+                mt = field(m, 'ty')
+                for e in probes:
+                    if len(e[1]) >= 2 and settle(it, e[1][0]) is mt and settle(it, e[1][1]) is ident:
+                        return settle(it, e[2])
+                return None
+            # --- the selected member ---------------------------------------------------------------
+            skipped = list(mems)
+            if isinstance(sel, Obj):
+                if sel not in mems:
+                    rep.ob('R05.12', '%s:%s:result-not-a-member-of-the-type' % (U, fn), False, '%s returns a member that does not come from ty->members' % fn, where=where, facts={'path': ctx.trail})
+                    continue
+                skipped = mems[:mems.index(sel)]
+                nm = field(sel, 'name')
+                if isinstance(nm, Obj):
+                    seen.add('named')
+                    bad = name_eq(sel)
+                    if bad and unknown:
+                        _und_once(rep, 'R05.12', '%s:%s:named-member' % (U, fn), 'the name test goes through %s(): not interpretable' % '/'.join(sorted(set(e[1] for e in unknown))), where=where)
+                    else:
+                        rep.ob('R05.12', '%s:%s:named-member/%s' % (U, fn, bad[0] if bad else 'selected-iff-name-is-identifier'), not bad,
+                               '%s selects a named member %s' % (fn, bad[1] if bad else ''), where=where, facts={'path': ctx.trail})
+                    if desg and not bad:
+                        good = 'next' in ident.fields and same(it, ctx.slot.v, ident.fields['next'])
+                        rep.ob('R05.12', '%s:%s:named-member/cursor-behind-identifier' % (U, fn), good,
+                               'after `.name` the token cursor is %s, not the token behind the identifier' % show(ctx.slot.v), where=where, facts={'path': ctx.trail})
+                elif is_null(nm):
+                    seen.add('anonymous')
+                    k = field(field(sel, 'ty'), 'kind') if isinstance(field(sel, 'ty'), Obj) else None
+                    kk = settle(it, k) if k is not None else None
+                    pr = probe_of(sel)
+                    good = isinstance(pr, Obj) and ((isinstance(kk, int) and kk in AGG) or (isinstance(k, View) and set(k.cell.cands) <= set(AGG)))
+                    rep.ob('R05.12', '%s:%s:anonymous-member/%s' % (U, fn, 'selected-iff-it-contains-the-identifier' if good else 'selected-without-probe'), bool(good),
+                           '%s selects an unnamed member without having found the identifier inside it (get_struct_member(member type, identifier) != NULL on a struct/union member)' % fn,
+                           where=where, facts={'path': ctx.trail})
+                    if desg and good:
+                        rep.ob('R05.12', '%s:%s:anonymous-member/cursor-stays-at-designator' % (U, fn), settle(it, ctx.slot.v) is ctx.tok,
+                               'for a member of an anonymous struct/union the token cursor must stay at the `.` so that the same designator is resolved again inside it; it is %s' % show(ctx.slot.v),
+                               where=where, facts={'path': ctx.trail})
+                else:
+                    rep.ob('R05.12', '%s:%s:member-selected-without-name-test' % (U, fn), False, '%s selects a member without looking at its name' % fn, where=where, facts={'path': ctx.trail})
+            elif not complete:
+                rep.ob('R05.12', '%s:%s:gives-up-before-the-last-member' % (U, fn), False,
+                       '%s %s after %d member(s) although more members may follow' % (fn, 'reports "no such member"' if out[0] != 'ret' else 'returns NULL', len(mems)), where=where, facts={'path': ctx.trail})
+                continue
+            # --- the members passed over ------------------------------------------------------------------
+            for m in skipped:
+                nm = field(m, 'name')
+                ok = True
+                if isinstance(nm, Obj):
+                    seen.add('passed-named')
+                    ok = name_ne(m)
+                    if not ok and unknown:
+                        continue
+                    if not ok and name_eq(m) is not None and ('loc' in nm.fields or 'len' in nm.fields):
+                        # the name was looked at, but neither "equal" nor "different" follows from the recognised comparisons
+                        _und_once(rep, 'R05.12', '%s:%s:named-member/passed-over' % (U, fn), 'a member is passed over after a name test that is not interpretable '
+                                      '(neither a length comparison nor strncmp/memcmp over the length of a name)', where=where)
+                        continue
+                    rep.ob('R05.12', '%s:%s:named-member/%s' % (U, fn, 'passed-over-only-when-different' if ok else 'passed-over-although-possibly-equal'), ok,
+                           '%s passes over a named member without having established that its name differs from the identifier (length or bytes over the full length): '
+                           'a designator for that member is rejected or lands on a later member' % fn, where=where, facts={'path': ctx.trail})
+                elif is_null(nm):
+                    k = field(field(m, 'ty'), 'kind') if isinstance(field(m, 'ty'), Obj) else None
+                    may_agg = k is None or (isinstance(k, View) and set(k.cell.cands) & set(AGG)) or (isinstance(k, int) and k in AGG)
+                    if may_agg:
+                        seen.add('passed-anonymous')
+                        pr = probe_of(m)
+                        ok = is_null(pr)
+                        rep.ob('R05.12', '%s:%s:anonymous-member/%s' % (U, fn, 'passed-over-only-when-it-lacks-the-identifier' if ok else 'passed-over-without-probe'), ok,
+                               '%s passes over an anonymous struct/union member without having looked for the identifier inside it' % fn, where=where, facts={'path': ctx.trail})
+                else:
+                    rep.ob('R05.12', '%s:%s:member-passed-over-without-name-test' % (U, fn), False, '%s passes over a member without looking at its name' % fn, where=where, facts={'path': ctx.trail})
+        need = {'named', 'anonymous', 'passed-named', 'passed-anonymous'}
+        if not seen >= need:
+            _und_once(rep, 'R05.12', '%s:%s' % (U, fn), 'member walk not recognised: cases seen %s, expected %s' % (sorted(seen), sorted(need)), where=where)
